@@ -280,6 +280,9 @@ class GenericQuantity(object):
     def __itruediv__(self, other):
         return self.__truediv__(other)
 
+    def __ifloordiv__(self, other):
+        return self.__floordiv__(other)
+
     def __ipow__(self, other):
         return self.__pow__(other)
 
